@@ -10,7 +10,7 @@ from props import whit_common as wc
 PRE = ("From HDC Require Import Base.Prelude Base.Float Base.Ops Model.Ws2d Model.Tinterp Corr.C03 Corr.C20.\nFrom Coq Require Import PrimFloat.\n")
 
 
-def make_case(rng, nobs, spacing, labeling, kind):
+def make_case(rng, nobs, spacing, labeling, kind, zero_sum=False):
     """observations every `spacing` days (or irregular), daily labels by dekad / pentad / month-like periods"""
     if spacing == 0:
         gaps = rng.integers(3, 20, size=nobs - 1)
@@ -43,6 +43,15 @@ def make_case(rng, nobs, spacing, labeling, kind):
     else:
         x = np.round(3000 * np.sin(t / 40.0) + rng.normal(0, 400, nobs) + rng.integers(-4000, 4000))
     x = np.clip(x, -10000, 10000).astype(int)
+    if zero_sum and nobs >= 3:
+        # observations that sum to exactly zero (anomalies, a line crossing zero at mid-record)
+        if kind == "linear" and spacing > 0 and (spacing * (nobs - 1)) % 2 == 0:
+            b = int(rng.integers(1, 5)) * int(rng.choice([-1, 1]))
+            x = (b * (pos - (pos[0] + pos[-1]) // 2)).astype(int)
+        elif kind == "random":
+            x = x - int(round(x.mean()))
+            x[-1] -= int(x.sum())
+            x = np.clip(x, -10000, 10000).astype(int)
     return dict(x=[int(v) for v in x], template=[float(v) for v in template], labels=[int(v) for v in labels], kind=kind,
                 pos=[int(v) for v in pos], spacing=spacing, labeling=labeling)
 
@@ -103,7 +112,7 @@ def run(ctx):
         spacing = int(rng.choice([5, 8, 10, 16, 0]))
         if nobs * max(spacing, 10) > 4200:
             nobs = 4200 // max(spacing, 10)
-        c = make_case(rng, nobs, spacing, str(rng.choice(["dekad", "pentad", "month"])), ["constant", "linear", "random", "random"][it % 4])
+        c = make_case(rng, nobs, spacing, str(rng.choice(["dekad", "pentad", "month"])), ["constant", "linear", "random", "random"][it % 4], zero_sum=(it % 8) in (1, 2))
         c["accessor"] = (it % 6 == 0)
         cases.append(c)
     res, log = core.run_impl("c20_impl.py", dict(cases=cases), timeout=3000)
